@@ -499,6 +499,15 @@ pub uninterp spec fn nondet(k: int) -> bool;
             final(invalid)@ == (if spec_can(*room, edge.verifying_key, entity_name@, edge.cdate, RightType::MutateSelf) { old(invalid)@ } else { old(invalid)@.push(edge.src) }),
 //@ end
 
+//@ extract src/database/authorisation_service.rs :: impl AuthorisationService / fn process_message as AuthorisationService::add_nodes_body
+//@ lift-loop "for node in valid_nodes" :: fn add_nodes_body(auth: &RoomAuthorisations, node: NodeToInsert, write_nodes: &mut Vec<NodeToInsert>, invalid_node: &mut Vec<Uid>)
+//@ spec
+        ensures
+            // [node_forwarded_iff_validated]{C02,C12} a row received from a peer is forwarded to the writer exactly when validate_node accepts it; otherwise its id is reported as rejected and the row goes nowhere
+            final(write_nodes)@ == (if spec_validate_node(*auth, node) { old(write_nodes)@.push(node) } else { old(write_nodes)@ }),
+            final(invalid_node)@ == (if spec_validate_node(*auth, node) { old(invalid_node)@ } else { old(invalid_node)@.push(node.id) }),
+//@ end
+
 // ================================================================= group mutations inside a room mutation (C01)
 #[verifier::external_body]
 pub fn user_from_json(json: &String, date: i64) -> (r: Result<User>) ensures r is Ok ==> r->Ok_0.date == date { unimplemented!() }          // under contract in u3_loaders
